@@ -541,3 +541,109 @@ not_reproduced("verify agrees with one-to-one matching on all tag assignments")
 '''
 
 # }}}
+
+
+# {{{ cross-rank cycles among parts
+
+@contract
+class VerifyCycles(Contract):
+    """verify_distributed_partition on partitions whose parts wait for each
+    other *across ranks*: the real partitions of listed programs, with all
+    parts of a rank fused into one (all receives at its beginning, all sends
+    at its end).  Oracle: the part graph over (rank, pid) -- a part needs its
+    intra-rank predecessors and, for every receive, the part that sends the
+    message -- has a cycle, i.e. executing the partition deadlocks.  Then a
+    diagnostic must be raised (on the root rank at least); an acyclic fused
+    partition must be accepted."""
+    name = "dist.verify.cycles"
+    functions = ("pytato.distributed.verify:verify_distributed_partition",
+                 "pytato.distributed.verify:_run_partition_diagnostics")
+    properties = ("C10",)
+    max_paths = 50
+
+    PROGS = ("pingpong", "ring", "halo2", "multisend", "forwarding", "nocomm")
+
+    def instances(self, tier):
+        return [dict(label=f"{p};ranks={n};fused", prog=p, size=n)
+                for p in self.PROGS for n in (2, 3)
+                if p in D.PROGRAMS and not (n == 3 and tier != "thorough"
+                                            and p not in ("ring", "pingpong"))]
+
+    def run(self, h, inst):
+        from pytato.distributed.partition import (DistributedGraphPart,
+                                                  DistributedGraphPartition)
+        from pytato.distributed.verify import verify_distributed_partition
+        from pyvc import fakempi
+        size = inst["size"]
+        try:
+            ctxs, res, raised = spmd(h, size, inst["prog"], verify=False,
+                                     number=False)
+        except D.NotApplicable:
+            return
+        if res is None:
+            h.oblige("dist.verify.cycles.program-has-a-partition",
+                     z3.BoolVal(False), info=str(raised)[:200])
+            return
+        fused = []
+        for sym, _n, _x in res:
+            parts = list(sym.parts.values())
+            outputs = frozenset().union(*[p.output_names for p in parts])
+            recvs, sends = {}, {}
+            for p_ in parts:
+                recvs.update(p_.name_to_recv_node)
+                for nm, nodes in p_.name_to_send_nodes.items():
+                    sends.setdefault(nm, []).extend(nodes)
+            fp = DistributedGraphPart(
+                pid=0, needed_pids=frozenset(),
+                user_input_names=frozenset().union(
+                    *[p_.user_input_names for p_ in parts]),
+                partition_input_names=frozenset().union(
+                    *[p_.partition_input_names for p_ in parts]) - outputs,
+                output_names=outputs, name_to_recv_node=recvs,
+                name_to_send_nodes=sends)
+            fused.append(DistributedGraphPartition(
+                parts={0: fp}, name_to_output=sym.name_to_output,
+                overall_output_names=sym.overall_output_names))
+        # oracle: rank r waits for rank s iff r receives something from s
+        waits = {r: {rv.src_rank for rv in
+                     fused[r].parts[0].name_to_recv_node.values()}
+                 for r in range(size)}
+
+        def cyclic():
+            color = {}
+
+            def visit(u):
+                color[u] = 1
+                for v in waits.get(u, ()):
+                    if color.get(v) == 1 or (v not in color and visit(v)):
+                        return True
+                color[u] = 2
+                return False
+            return any(u not in color and visit(u) for u in range(size))
+        deadlocks = cyclic()
+        raised = {}
+
+        def program(comm):
+            try:
+                h.call(verify_distributed_partition, comm, fused[comm.rank])
+            except (EngineSignal, fakempi.NeedOthers):
+                raise
+            except Exception as e:  # noqa: BLE001
+                raised[comm.rank] = e
+                raise
+            return True
+        _w, outcomes = fakempi.run_spmd(
+            size, program, call=lambda f, *a: h.call(f, *a),
+            record_exceptions=True, passthrough=(EngineSignal,))
+        diagnosed = bool(raised) or any(
+            isinstance(o, fakempi.RankRaised) for o in outcomes)
+        info = {r: f"{type(e).__name__}: {e}"[:100] for r, e in raised.items()}
+        if deadlocks:
+            h.oblige("dist.verify.cycles.deadlocking-partition-is-diagnosed",
+                     z3.BoolVal(diagnosed), info=dict(waits={
+                         r: sorted(w) for r, w in waits.items()}))
+        else:
+            h.oblige("dist.verify.cycles.acyclic-partition-is-accepted",
+                     z3.BoolVal(not diagnosed), info=info)
+
+# }}}
